@@ -3,7 +3,7 @@ from ..facts import callee_q, succs
 from ..paths import Explorer
 from ..terms import Terms, simplify, has_call, has_field, show
 from ..callgraph import CallGraph
-from .r_steps import (GuardedStep, guard_from_bool_call, guard_from_bool_field, guard_from_option_field,
+from .r_steps import (GuardedStep, guard_from_bool_call, guard_block_device, guard_from_bool_field, guard_from_option_field,
                       hash_compare_sites, exit_outcomes_from, OK_OUTCOMES)
 
 SET_LEN = 'tokio::fs::file::File::set_len'
@@ -33,7 +33,7 @@ def run(facts, cg=None):
                 arg = simplify(T.of_operand(b_, t['args'][1]))
                 return has_call(arg, 'Archive::total_source_size')
             return False
-        r = GuardedStep(b, is_resize, guard_from_bool_call(T, 'is_block_dev'), bypass_value=True)
+        r = GuardedStep(b, is_resize, guard_block_device(T), bypass_value=True)
         Explorer(b, r).run()
         instances.append({'rule': 'R-RESIZE', 'function': b.q, 'ok_exits': r.ok_exits, 'steps': r.steps_seen})
         if r.steps_seen == 0:
@@ -41,7 +41,11 @@ def run(facts, cg=None):
         for kind, loc, guard in r.violations:
             finding('R-RESIZE', b, 'bypass', 'a success path reaches %s without resizing the regular-file output (is_block_dev=%s)' % (loc, guard))
         # ---------------- R-VERIFYOUT
-        sites = hash_compare_sites(b, T, lambda a: has_call(a, 'file_checksum'), lambda a: has_call(a, 'Archive::source_checksum'))
+        # the digest of what the output holds now: a helper named file_checksum while it stays a call, else (inlined) a digest
+        # that is not an accessor of the archive
+        is_output_digest = lambda a: has_call(a, 'file_checksum') or ((has_call(a, '::finalize') or has_call(a, '::digest')) and not has_call(a, 'Archive::source_checksum')
+                                                                       and not has_call(a, 'Archive::header_checksum'))
+        sites = hash_compare_sites(b, T, is_output_digest, lambda a: has_call(a, 'Archive::source_checksum'))
         instances.append({'rule': 'R-VERIFYOUT', 'function': b.q, 'compare_sites': [t['loc'] for _, t, _, _ in sites]})
         if not sites:
             finding('R-VERIFYOUT', b, 'missing', 'no comparison of the output checksum with the archive source checksum')
@@ -103,8 +107,10 @@ def run(facts, cg=None):
                 if st['k'] == 'assign' and st['rv']['k'] == 'binop' and st['rv']['op'] in ('Lt', 'Le', 'Gt', 'Ge'):
                     ta = simplify(T.of_operand(b, st['rv']['a']))
                     tb = simplify(T.of_operand(b, st['rv']['b']))
-                    if (has_call(ta, 'file_size') and has_call(tb, 'Archive::total_source_size')) or \
-                            (has_call(tb, 'file_size') and has_call(ta, 'Archive::total_source_size')):
+                    is_size = lambda x: has_call(x, 'file_size') or has_call(x, 'AsyncSeekExt::seek') or has_call(x, 'Seek::seek') or \
+                        has_call(x, 'Metadata::len') or has_call(x, 'stream_position')
+                    if (is_size(ta) and has_call(tb, 'Archive::total_source_size')) or \
+                            (is_size(tb) and has_call(ta, 'Archive::total_source_size')):
                         size_cmp.add(bi)
         instances.append({'rule': 'R-SIZECHECK', 'function': b.q, 'size_comparisons': len(size_cmp)})
         if not size_cmp:
@@ -123,7 +129,7 @@ def run(facts, cg=None):
                     if bi in size_cmp and st['k'] == 'assign' and st['rv']['k'] == 'binop' and st['rv']['op'] in ('Lt', 'Le', 'Gt', 'Ge'):
                         return (True, state[1], state[2])
                     return state
-            r = SizeStep(b, lambda b_, bi, t: False, guard_from_bool_call(T, 'is_block_dev'), bypass_value=False, also_at=may_write)
+            r = SizeStep(b, lambda b_, bi, t: False, guard_block_device(T), bypass_value=False, also_at=may_write)
             Explorer(b, r).run()
             for kind, loc, guard in r.violations:
                 if kind == 'before':
